@@ -27,7 +27,11 @@ sh("git checkout -q -- . ; rm -f tests/mut_demo.rs; git checkout -q --detach $(g
 ok = step("apply", "git apply %s/patch.diff" % src, True)
 ok = ok and step("suite_with_patch", "cargo test --workspace --offline 2>&1 | tail -40", True)
 shutil.copy(os.path.join(src, "demo.rs"), os.path.join(wt, "tests", "mut_demo.rs"))
-DF = os.environ.get("MUT_DEMO_FLAGS", "")
+try:
+    _mf = json.load(open(os.path.join(src, "meta.json"))).get("demo_flags", "")
+except Exception:
+    _mf = ""
+DF = os.environ.get("MUT_DEMO_FLAGS", "") or _mf
 ok = ok and step("demo_with_patch_fails", "cargo test --offline %s --test mut_demo 2>&1 | tail -30" % DF, False)
 caught = {}
 if ok:
